@@ -5,6 +5,9 @@ func init() {
 	vRegister("H_C05_strings", H_C05_strings)
 	vRegister("H_C05_gpos", H_C05_gpos)
 	vRegister("H_C05_isdn", H_C05_isdn)
+	vRegister("H_C05_svcb", H_C05_svcb)
+	vRegister("H_C05_svcb_strings", H_C05_svcb_strings)
+	vRegister("H_C05_apl", H_C05_apl)
 	vRegister("H_C05_longstr", H_C05_longstr)
 	vRegister("H_C05_mnemonics", H_C05_mnemonics)
 	vRegister("H_C05_generic", H_C05_generic)
@@ -40,7 +43,7 @@ func refMasterSyntax(text string) bool {
 				}
 				i += 3
 			} else {
-				if n < 0x21 || n > 0x7E {
+				if n < 0x20 || n > 0x7E { // RFC 1035 5.1: \X quotes any character other than a digit - a blank included
 					return false
 				}
 				i++
@@ -159,6 +162,13 @@ func H_C05_isdn() {
 	vAssume(err == nil && off == len(w))
 	vC05Reparse(rr1, w, TypeISDN)
 }
+
+// H_C05_svcb / H_C05_apl: the round trip of H_C05_roundtrip for SVCB and APL alone (gen.onlytype), with small sizes.
+func H_C05_svcb() { H_C05_roundtrip() }
+func H_C05_apl()  { H_C05_roundtrip() }
+
+// H_C05_svcb_strings: SVCB with arbitrary octets (gen.anystr) in alpn ids, dohpath and private-use values.
+func H_C05_svcb_strings() { H_C05_roundtrip() }
 
 // H_C05_longstr: character-strings at and around the 255-octet limit (TXT and SPF): one octet at the first,
 // a middle or the last position is arbitrary (so it may need an escape), the others are letters; a second string
